@@ -10,6 +10,10 @@ NOTE = ("Trusted: go/packages+go/ssa v0.29.0, the symgo interpreter (fork of x/t
 claimed = {
  "C05": dict(level="model_checking", design="4 C05", tech="SSA symbolic execution of the real main() under a map-iteration-order oracle (nondeterministic choice per range-over-map), cross-path output comparison",
    text="The real main/transpileFiles run from go/ssa on a template set with every map iteration order turned into a choice of the engine (all permutations for <= 3 entries, insertion/reverse/rotate above) inside a window of 4 (quick) / 5 (thorough) consecutive iteration events that slides over all events of the run, plus two global strategies; all explored paths must agree on exit status and output files. A difference is confirmed against the real binary (repeated runs, then a dict shim with sorted/reversed/rotated enumeration) before it is reported."),
+ "C06": dict(level="model_checking", design="4 C06", tech="SSA symbolic execution: byte-level scanner/column lemma + whole-parser runs with every line's indentation a symbolic integer + SMT (z3)",
+   text="Two lemmas. (A) For every buffer of <= 4 (quick) / 6 (thorough) symbolic bytes the real scanners and tkzNext/newTkz/tkzNextNOL treat blanks, tabs and comments as transparent, a token is a function of the bytes from its begin on, and col is the true column. (B) The real parser+emitter run on templates in line-start normal form with the column of every token = canonical offset + a symbolic indentation per line, constrained only by the indentation tree (unbounded amounts); optional line breaks, blank lines and comments are choices; z3 shows every offside comparison one-sided and the emitted Go equal to the canonical layout's on every feasible path; a converse template checks that a dedented line ends its block."),
+ "C07": dict(level="model_checking", design="4 C07", tech="SSA symbolic execution of the real main() twice per path (minimal package vs. variant context) with symbolic identifiers + SMT (z3)",
+   text="For three target definitions the real main() runs on the minimal package and on a variant with unrelated definitions (function and record names are 3 symbolic bytes each) present or not at several places, independent dependencies reordered, and the sequence cut into up to 2 (quick) / 3 (thorough) files plus a .foi file; z3 discharges equality of the target's Go text (temporaries renumbered) and the gen_X.go-per-X.fo file discipline on every path."),
  "C08": dict(level="model_checking", design="4 C08", tech="SSA symbolic execution of tokenizer+parser+inference+emitter over symbolic operator bytes and symbolic precedences + SMT (z3)",
    text="Chains of up to 3 (quick) / 4 (thorough) binary operators whose spellings are symbolic bytes constrained to the 12 non-pipe operators run through the whole real pipeline; z3 prunes/decides every spelling path and the emitted return expression must equal a reference precedence-climbing fold over the published table (operand forms: atom, application, not, parentheses; optional line breaks). A second level writes symbolic ranks 1..6 into the real binOpMap and checks the grouping against the reference fold for every rank table at once."),
  "C09": dict(level="model_checking", design="4 C09", tech="SSA symbolic execution of the real main() over a virtual file system; arm names with symbolic digit bytes + SMT (z3)",
